@@ -283,6 +283,7 @@ func (a *arrayObject) setForeignStr(name unistring.String, val, receiver Value, 
 
 type arrayPropIter struct {
 	a     *arrayObject
+	base  iterNextFunc // the non-index keys as of the start of the enumeration
 	limit int
 	idx   int
 }
@@ -297,12 +298,13 @@ func (i *arrayPropIter) next() (propIterItem, iterNextFunc) {
 		}
 	}
 
-	return i.a.baseObject.iterateStringKeys()()
+	return i.base()
 }
 
 func (a *arrayObject) iterateStringKeys() iterNextFunc {
 	return (&arrayPropIter{
 		a:     a,
+		base:  a.baseObject.iterateStringKeys(),
 		limit: len(a.values),
 	}).next
 }
